@@ -113,7 +113,7 @@ def _gen_model(rng, mode: str = "mixed", big: bool = False) -> Dict[str, Any]:
     n1 = rng.choice(nvals)
     n_points = rng.choice([1, 1, 2])
     points = rng.sample(range(max(1, n_comp - 1)), min(n_points, max(1, n_comp - 1)))
-    forms = ["int", "int", "str", "gvar", "svar", "cvar"]
+    forms = ["int", "int", "str", "gvar", "gvar", "svar", "cvar"]
     for k, p in enumerate(points):
         comps[p]["rep"] = {"n": n1, "form": rng.choice(forms), "var": "nrep%d" % k}
 
@@ -150,8 +150,42 @@ def _gen_model(rng, mode: str = "mixed", big: bool = False) -> Dict[str, Any]:
                 model["gvars"][c["rep"]["var"]] = str(c["rep"]["n"])
             elif f == "svar":
                 model["svars"].setdefault(str(c["stage"]), {})[c["rep"]["var"]] = str(c["rep"]["n"])
+    _shadow_variables(rng, model, nvals)
     rng.shuffle(model["order"])
     return model
+
+
+def _shadow_variables(rng, model, nvals):
+    """The variable that carries a replica count is ALSO defined, with other values, in scopes the reading
+    component cannot see (stage scope of other stages, component scope of other components - earlier and later,
+    replicating or not) and in scopes it overrides (global under a stage/component definition, own stage under a
+    component definition).  A component sees global < its own stage < its own component scope, so the expected
+    expansion is unchanged by construction."""
+    comps = model["comps"]
+    stages = sorted({c["stage"] for c in comps})
+    model["shadowed"] = []
+    for ri, c in enumerate(comps):
+        if not c["rep"] or c["rep"]["form"] not in ("gvar", "svar", "cvar") or rng.random() < 0.15:
+            continue
+        v, n, f = c["rep"]["var"], c["rep"]["n"], c["rep"]["form"]
+        others = [x for x in nvals if x != n]
+        where = []
+        for st in stages:                                   # stage scopes of the other stages
+            if st != c["stage"] and rng.random() < 0.8:
+                model["svars"].setdefault(str(st), {})[v] = str(rng.choice(others))
+                where.append("stage%d" % st)
+        for j, o in enumerate(comps):                       # component scopes of other components
+            if j != ri and rng.random() < 0.5:
+                o.setdefault("vars", {})[v] = str(rng.choice(others))
+                where.append("comp%d" % j)
+        if f in ("svar", "cvar") and rng.random() < 0.7:    # a global value that the reader overrides
+            model["gvars"][v] = str(rng.choice(others))
+            where.append("global")
+        if f == "cvar" and rng.random() < 0.7:              # its own stage's value that the reader overrides
+            model["svars"].setdefault(str(c["stage"]), {})[v] = str(rng.choice(others))
+            where.append("own-stage")
+        if where:
+            model["shadowed"].append({"var": v, "reader": ri, "form": f, "also_defined_in": where})
 
 
 FILES = [None, None, None, "out.txt", "sub/f.dat", "f_1.csv", "a.b/c-d.x"]
@@ -373,12 +407,14 @@ def to_flowir(model) -> Dict[str, Any]:
         d: Dict[str, Any] = {"name": c["name"], "stage": c["stage"],
                              "command": {"executable": "echo", "arguments": args_string(model, i)},
                              "references": decl_strings(model, i)}
+        if c.get("vars"):
+            d["variables"] = dict(c["vars"])
         wa: Dict[str, Any] = {}
         if c["rep"]:
             f, n, v = c["rep"]["form"], c["rep"]["n"], c["rep"]["var"]
             wa["replicate"] = n if f == "int" else (str(n) if f == "str" else "%%(%s)s" % v)
             if f == "cvar":
-                d["variables"] = {v: str(n)}
+                d.setdefault("variables", {})[v] = str(n)
         if c["agg"]:
             wa["aggregate"] = True
         if wa:
